@@ -53,15 +53,21 @@ CONSTANTS OutFile,      \* JSON file written by TLC
           PerMut,       \* histories sampled per mutation sequence (quick 2; thorough: all base x split)
           SchemasPer,   \* schema variants per history
           QMod,         \* every QMod-th query is paired with a history (each query meets >= 1 history when #histories >= QMod)
+          JMod,         \* same for the join queries
+          Q3Mod,        \* same for the queries over t3
           PMod          \* same for the partition identity
 
 NULL == -9
 ANY  == -8
-\* b / y codes: 0 = '', 1 = 'a', 2 = 'ab', 3 = 'b' (bytewise order; 'a' is a prefix of 'ab'); c codes: 0 = FALSE, 1 = TRUE
+\* b / y / s / u codes: 0 = '', 1 = 'a', 2 = 'ab', 3 = 'b', 4 = 'bc', 5 = 'c' (bytewise order; 'a' is a prefix of 'ab';
+\* 'ab' . 'c' = 'a' . 'bc': a key that merely concatenates two columns cannot tell these pairs apart); c codes: 0 = FALSE, 1 = TRUE
+\* f (FLOAT) codes: 4 x value, i.e. 12 = 3.0, 13 = 3.25, 14 = 3.5, 15 = 3.75, 16 = 4.0; an INTEGER literal k stands for code 4k
 HasPrefix == {<<0, 0>>, <<1, 0>>, <<2, 0>>, <<3, 0>>, <<1, 1>>, <<2, 1>>, <<2, 2>>, <<3, 3>>}   \* <<value, prefix>>
 
 \* one row of the join space: t1 columns then t2 columns; a t1 row alone is padded with NULLs (= LEFT JOIN extension)
+\* t3(id PK, f FLOAT, g INTEGER, n INTEGER, s VARCHAR, u VARCHAR) is queried on its own: a t3 row is <<id, f, g, n, s, u>>
 Col(c) == CASE c = "id" -> 1 [] c = "a" -> 2 [] c = "b" -> 3 [] c = "c" -> 4 [] c = "id2" -> 5 [] c = "x" -> 6 [] c = "y" -> 7
+            [] c = "f" -> 2 [] c = "g" -> 3 [] c = "n" -> 4 [] c = "s" -> 5 [] c = "u" -> 6
 Pad1(r) == r \o <<NULL, NULL, NULL>>
 Pad2(t) == <<NULL, NULL, NULL, NULL>> \o t
 
@@ -76,6 +82,10 @@ Not3(l)    == IF l = "T" THEN "F" ELSE IF l = "F" THEN "T" ELSE "N"
 
 Cmp(c, op, v)      == [k |-> "cmp", col |-> c, op |-> op, v |-> v]
 Between(c, lo, hi) == [k |-> "between", col |-> c, lo |-> lo, hi |-> hi]
+\* the same on the FLOAT column with the constants written as INTEGER literals (ilit): same meaning, other literal type
+CmpI(c, op, v)      == [k |-> "cmp", col |-> c, op |-> op, v |-> v, ilit |-> TRUE]
+BetweenI(c, lo, hi) == [k |-> "between", col |-> c, lo |-> lo, hi |-> hi, ilit |-> TRUE]
+InI(c, vs)          == [k |-> "in", col |-> c, vs |-> vs, neg |-> FALSE, ilit |-> TRUE]
 In(c, vs)          == [k |-> "in", col |-> c, vs |-> vs, neg |-> FALSE]
 NotIn(c, vs)       == [k |-> "in", col |-> c, vs |-> vs, neg |-> TRUE]
 Like(c, p)         == [k |-> "like", col |-> c, pre |-> p, neg |-> FALSE]
@@ -183,6 +193,18 @@ T2s == << {<<1, 1, 1>>, <<2, NULL, 3>>, <<3, 3, NULL>>, <<4, 1, 2>>},     \* x: 
           {},
           {<<1, 2, 0>>, <<2, 2, 2>>} >>
 
+\* t3 rows <<id, f, g, n, s, u>>
+T3s == <<
+  \* f: four values in [3, 4) whose g are not in f's order, one at 4, one below 3; (g, n): (NULL, 5) vs (5, NULL), (5, 0) vs (5, NULL);
+  \* (s, u): ('ab','c') twice, ('a','bc'), (NULL, '') vs ('', NULL), (NULL, NULL), ('', '')
+  {<<1, 12, 9, NULL, 2, 5>>, <<2, 13, 1, 5, 1, 4>>, <<3, 14, 5, 0, NULL, 0>>, <<4, 16, 2, NULL, 0, NULL>>, <<5, 15, 5, NULL, 2, 5>>,
+   <<6, 10, NULL, 5, NULL, NULL>>, <<7, 13, 1, 5, 0, 0>>},
+  \* the group g = 1 is split by g = 2 in the order of f; duplicates of f
+  {<<1, 12, 3, 1, 1, 1>>, <<2, 13, 1, 0, 3, 1>>, <<3, 14, 2, NULL, 1, 3>>, <<4, 15, 1, NULL, 3, 1>>, <<5, 16, 1, 1, 1, 1>>,
+   <<6, 8, 2, 0, NULL, 1>>, <<7, 14, 0, NULL, 1, NULL>>},
+  \* NULL in f
+  {<<1, NULL, 1, 1, 2, 2>>, <<2, 12, 2, NULL, 2, NULL>>, <<3, 14, 1, 1, NULL, 2>>, <<4, NULL, 2, 0, 5, 0>>} >>
+
 AllBaseSplit == [i \in 1..(Len(Bases) * 3) |-> <<((i - 1) \div 3) + 1, ((i - 1) % 3) + 1>>]
 \* histories chosen for this run: for every mutation sequence, PerMut (base, split) pairs
 PickBS(m, j) == AllBaseSplit[((m * 7 + j * 4 + Seed * 11) % Len(AllBaseSplit)) + 1]
@@ -199,15 +221,23 @@ NH == Len(HistKeys)
 (* prefix, or after COMMIT when there is no prefix).                       *)
 Ix(cols, u, late) == [cols |-> cols, unique |-> u, late |-> late]
 Schemas == <<
-  [name |-> "pk-only",      t1 |-> <<>>, t2 |-> <<>>],
-  [name |-> "a,b",          t1 |-> <<Ix(<<"a">>, FALSE, FALSE), Ix(<<"b">>, FALSE, FALSE)>>, t2 |-> <<Ix(<<"x">>, FALSE, FALSE)>>],
-  [name |-> "a,b late",     t1 |-> <<Ix(<<"a">>, FALSE, TRUE), Ix(<<"b">>, FALSE, TRUE)>>, t2 |-> <<Ix(<<"x">>, FALSE, TRUE)>>],
-  [name |-> "(a,b)",        t1 |-> <<Ix(<<"a", "b">>, FALSE, FALSE)>>, t2 |-> <<Ix(<<"x", "y">>, FALSE, FALSE)>>],
-  [name |-> "(a,b) late,(c,a)", t1 |-> <<Ix(<<"a", "b">>, FALSE, TRUE), Ix(<<"c", "a">>, FALSE, FALSE)>>, t2 |-> <<>>],
-  [name |-> "unique b,a late", t1 |-> <<Ix(<<"b">>, TRUE, FALSE), Ix(<<"a">>, FALSE, TRUE)>>, t2 |-> <<Ix(<<"y">>, FALSE, FALSE)>>],
+  [name |-> "pk-only",      t1 |-> <<>>, t2 |-> <<>>, t3 |-> <<>>],
+  [name |-> "a,b",          t1 |-> <<Ix(<<"a">>, FALSE, FALSE), Ix(<<"b">>, FALSE, FALSE)>>, t2 |-> <<Ix(<<"x">>, FALSE, FALSE)>>,
+                            t3 |-> <<Ix(<<"f", "g">>, FALSE, FALSE), Ix(<<"s", "u">>, FALSE, FALSE)>>],
+  [name |-> "a,b late",     t1 |-> <<Ix(<<"a">>, FALSE, TRUE), Ix(<<"b">>, FALSE, TRUE)>>, t2 |-> <<Ix(<<"x">>, FALSE, TRUE)>>,
+                            t3 |-> <<Ix(<<"f", "g">>, FALSE, TRUE), Ix(<<"g", "n">>, FALSE, TRUE)>>],
+  [name |-> "(a,b)",        t1 |-> <<Ix(<<"a", "b">>, FALSE, FALSE)>>, t2 |-> <<Ix(<<"x", "y">>, FALSE, FALSE)>>,
+                            t3 |-> <<Ix(<<"f", "g">>, FALSE, FALSE), Ix(<<"g", "n">>, FALSE, FALSE)>>],
+  [name |-> "(a,b) late,(c,a)", t1 |-> <<Ix(<<"a", "b">>, FALSE, TRUE), Ix(<<"c", "a">>, FALSE, FALSE)>>, t2 |-> <<>>,
+                            t3 |-> <<Ix(<<"s", "g">>, FALSE, FALSE), Ix(<<"n", "g">>, FALSE, FALSE)>>],
+  [name |-> "unique b,a late", t1 |-> <<Ix(<<"b">>, TRUE, FALSE), Ix(<<"a">>, FALSE, TRUE)>>, t2 |-> <<Ix(<<"y">>, FALSE, FALSE)>>,
+                            t3 |-> <<Ix(<<"f">>, FALSE, FALSE), Ix(<<"g", "n">>, FALSE, FALSE), Ix(<<"u", "s">>, FALSE, FALSE)>>],
   [name |-> "a,(a,b),(b,a),c", t1 |-> <<Ix(<<"a">>, FALSE, FALSE), Ix(<<"a", "b">>, FALSE, FALSE), Ix(<<"b", "a">>, FALSE, FALSE),
-                                       Ix(<<"c">>, FALSE, FALSE)>>, t2 |-> <<Ix(<<"x">>, FALSE, FALSE), Ix(<<"y", "x">>, FALSE, FALSE)>>],
-  [name |-> "(b,a) late,c late", t1 |-> <<Ix(<<"b", "a">>, FALSE, TRUE), Ix(<<"c">>, FALSE, TRUE)>>, t2 |-> <<Ix(<<"x">>, FALSE, TRUE)>>] >>
+                                       Ix(<<"c">>, FALSE, FALSE)>>, t2 |-> <<Ix(<<"x">>, FALSE, FALSE), Ix(<<"y", "x">>, FALSE, FALSE)>>,
+                            t3 |-> <<Ix(<<"f", "g">>, FALSE, FALSE), Ix(<<"s", "u">>, FALSE, FALSE), Ix(<<"g", "n">>, FALSE, FALSE),
+                                     Ix(<<"n", "g">>, FALSE, FALSE)>>],
+  [name |-> "(b,a) late,c late", t1 |-> <<Ix(<<"b", "a">>, FALSE, TRUE), Ix(<<"c">>, FALSE, TRUE)>>, t2 |-> <<Ix(<<"x">>, FALSE, TRUE)>>,
+                            t3 |-> <<Ix(<<"s", "u">>, FALSE, TRUE), Ix(<<"f", "g">>, FALSE, TRUE)>>] >>
 HasUnique(s) == \E i \in 1..Len(Schemas[s].t1) : Schemas[s].t1[i].unique
 SchemasFor(j, stmts) ==
   LET n == Len(Schemas)
@@ -241,7 +271,8 @@ Preds == <<
   InSub("b", "y", <<NotNull("x")>>), And(Cmp("a", "=", 1), InSub("a", "x", <<>>)) >>
 
 \* shapes of single-table queries; ORDER BY / DISTINCT columns are always part of the projection
-Ord(c, desc) == <<c, desc>>
+Ord(c, desc) == <<c, desc, "">>            \* NULL placement of the dialect: first ascending, last descending
+OrdN(c, desc, nulls) == <<c, desc, nulls>>  \* explicit NULLS FIRST ("first") / NULLS LAST ("last")
 Rows(proj, distinct, order, limit, offset) ==
   [kind |-> "rows", proj |-> proj, distinct |-> distinct, order |-> order, limit |-> limit, offset |-> offset]
 Agg(fn, c) == <<fn, c>>
@@ -261,15 +292,19 @@ Shapes == <<
   Rows(<<"a">>, FALSE, <<Ord("a", FALSE)>>, -1, -1), Rows(<<"b", "id">>, FALSE, <<>>, -1, -1),
   Rows(<<"a">>, TRUE, <<>>, -1, -1), Rows(<<"b">>, TRUE, <<Ord("b", FALSE)>>, -1, -1), Rows(<<"a", "c">>, TRUE, <<>>, -1, -1),
   Rows(<<"c">>, TRUE, <<Ord("c", TRUE)>>, -1, -1), Rows(<<"a">>, TRUE, <<Ord("a", TRUE)>>, 2, -1),
-  Group("a", <<Agg("COUNT", "*"), Agg("SUM", "id"), Agg("MIN", "b"), Agg("MAX", "b")>>, 0, FALSE),
-  Group("b", <<Agg("COUNT", "*"), Agg("COUNT", "a"), Agg("SUM", "a"), Agg("MIN", "a"), Agg("MAX", "a")>>, 1, FALSE),
-  Group("c", <<Agg("COUNT", "*"), Agg("SUM", "a"), Agg("MAX", "b")>>, 0, FALSE),
-  Group("a", <<Agg("COUNT", "*")>>, 0, TRUE),
-  Group("a", <<Agg("COUNT", "c"), Agg("MIN", "id")>>, 2, FALSE),
-  Group("", <<Agg("COUNT", "*")>>, 0, FALSE),
-  Group("", <<Agg("COUNT", "a"), Agg("SUM", "a"), Agg("MIN", "a"), Agg("MAX", "a")>>, 0, FALSE),
-  Group("", <<Agg("MIN", "b"), Agg("MAX", "b"), Agg("COUNT", "b")>>, 0, FALSE),
-  Group("", <<Agg("COUNT", "*"), Agg("SUM", "id")>>, 0, FALSE) >>
+  Group(<<"a">>, <<Agg("COUNT", "*"), Agg("SUM", "id"), Agg("MIN", "b"), Agg("MAX", "b")>>, 0, FALSE),
+  Group(<<"b">>, <<Agg("COUNT", "*"), Agg("COUNT", "a"), Agg("SUM", "a"), Agg("MIN", "a"), Agg("MAX", "a")>>, 1, FALSE),
+  Group(<<"c">>, <<Agg("COUNT", "*"), Agg("SUM", "a"), Agg("MAX", "b")>>, 0, FALSE),
+  Group(<<"a">>, <<Agg("COUNT", "*")>>, 0, TRUE),
+  Group(<<"a">>, <<Agg("COUNT", "c"), Agg("MIN", "id")>>, 2, FALSE),
+  Group(<<>>, <<Agg("COUNT", "*")>>, 0, FALSE),
+  Group(<<>>, <<Agg("COUNT", "a"), Agg("SUM", "a"), Agg("MIN", "a"), Agg("MAX", "a")>>, 0, FALSE),
+  Group(<<>>, <<Agg("MIN", "b"), Agg("MAX", "b"), Agg("COUNT", "b")>>, 0, FALSE),
+  Group(<<>>, <<Agg("COUNT", "*"), Agg("SUM", "id")>>, 0, FALSE),
+  Rows(Full, FALSE, <<OrdN("a", FALSE, "last")>>, -1, -1), Rows(Full, FALSE, <<OrdN("a", TRUE, "first")>>, -1, -1),
+  Rows(Full, FALSE, <<OrdN("b", FALSE, "last"), Ord("a", FALSE)>>, 2, -1), Rows(Full, FALSE, <<OrdN("a", FALSE, "first")>>, -1, -1),
+  Group(<<"a", "c">>, <<Agg("COUNT", "*"), Agg("SUM", "id")>>, 0, FALSE),
+  Group(<<"b", "a">>, <<Agg("COUNT", "*"), Agg("MAX", "id")>>, 1, FALSE) >>
 
 \* join queries: t1 [INNER | LEFT] JOIN t2 ON <equalities>, WHERE over the joined row
 JoinWheres == << <<>>, <<Cmp("y", "=", 1)>>, <<Cmp("c", "=", 1)>>, <<IsNull("x")>>,
@@ -277,38 +312,94 @@ JoinWheres == << <<>>, <<Cmp("y", "=", 1)>>, <<Cmp("c", "=", 1)>>, <<IsNull("x")
 JoinShapes == <<
   Rows(<<"id", "a", "id2", "x", "y">>, FALSE, <<>>, -1, -1),
   Rows(<<"id", "a", "id2", "x", "y">>, FALSE, <<Ord("a", TRUE)>>, -1, -1),
-  Group("a", <<Agg("COUNT", "*"), Agg("MAX", "y")>>, 0, FALSE),
-  Group("", <<Agg("COUNT", "*")>>, 0, FALSE) >>
-JoinOns == << <<<<"a", "x">>>>, <<<<"b", "y">>>>, <<<<"a", "x">>, <<"b", "y">>>> >>
+  Group(<<"a">>, <<Agg("COUNT", "*"), Agg("MAX", "y")>>, 0, FALSE),
+  Group(<<>>, <<Agg("COUNT", "*")>>, 0, FALSE),
+  \* ORDER BY columns of the INNER table (t2.id has the name of t1's primary key)
+  Rows(<<"id", "a", "id2", "x", "y">>, FALSE, <<Ord("id2", FALSE)>>, -1, -1),
+  Rows(<<"id", "a", "id2", "x", "y">>, FALSE, <<Ord("id2", TRUE)>>, -1, -1),
+  Rows(<<"id", "a", "id2", "x", "y">>, FALSE, <<Ord("a", FALSE), Ord("id2", TRUE)>>, -1, -1),
+  Rows(<<"id", "a", "id2", "x", "y">>, FALSE, <<Ord("y", FALSE)>>, 3, -1) >>
+\* ON conjuncts <<t1 column, operator, t2 column>>; the last two are an equality plus a conjunct that is not an equality and
+\* involves the outer row (a hash join must evaluate it per outer row)
+JoinOns == << <<<<"a", "=", "x">>>>, <<<<"b", "=", "y">>>>, <<<<"a", "=", "x">>, <<"b", "=", "y">>>>,
+              <<<<"a", "=", "x">>, <<"id", "<", "id2">>>>, <<<<"b", "=", "y">>, <<"a", ">=", "x">>>> >>
+
+\* queries over t3: ranges on the FLOAT column written with INTEGER or FLOAT literals (a half-open range between consecutive
+\* integers holds several FLOAT values: the order of g inside it is not the order of the index (f, g)), equalities, BETWEEN,
+\* IN, crossed with ORDER BY / DISTINCT / GROUP BY on the following index column; GROUP BY over two nullable columns of
+\* one type (NULLs swapped between the columns, NULL vs 0, NULL vs '', ('ab','c') vs ('a','bc'))
+Preds3 == <<
+  And(CmpI("f", ">=", 12), CmpI("f", "<", 16)), And(CmpI("f", ">", 12), CmpI("f", "<=", 16)),
+  And(CmpI("f", ">=", 12), CmpI("f", "<=", 16)), And(CmpI("f", ">", 12), CmpI("f", "<", 16)),
+  And(CmpI("f", ">=", 12), CmpI("f", "<=", 12)), And(CmpI("f", ">=", 8), CmpI("f", "<", 12)),
+  CmpI("f", "=", 12), CmpI("f", "=", 16), BetweenI("f", 12, 16), InI("f", <<12, 16>>), BetweenI("f", 12, 12),
+  And(Cmp("f", ">=", 12), Cmp("f", "<", 16)), And(Cmp("f", ">", 12), Cmp("f", "<=", 14)),
+  Cmp("f", "=", 13), And(Cmp("f", ">=", 13), Cmp("f", "<=", 13)), Between("f", 13, 15), In("f", <<13, 15>>),
+  And(CmpI("f", ">=", 12), Cmp("f", "<", 14)), And(Cmp("f", ">", 13), CmpI("f", "<=", 16)),
+  And(Cmp("s", ">=", 1), Cmp("s", "<", 3)), Cmp("s", "=", 2), And(Cmp("s", ">=", 2), Cmp("s", "<=", 2)), IsNull("s"), Cmp("s", "=", 0),
+  And(Cmp("g", ">=", 1), Cmp("g", "<", 2)), Cmp("g", "=", 5), Cmp("n", "=", 5), IsNull("n"), Cmp("n", "=", 0),
+  And(Cmp("g", "=", 5), IsNull("n")), And(Cmp("n", "=", 5), Cmp("g", ">=", 1)) >>
+P3 == <<"id", "f", "g", "n">>
+PS == <<"id", "s", "u", "g">>
+Shapes3 == <<
+  Rows(P3, FALSE, <<>>, -1, -1), Rows(P3, FALSE, <<Ord("g", FALSE)>>, -1, -1), Rows(P3, FALSE, <<Ord("g", TRUE)>>, -1, -1),
+  Rows(P3, FALSE, <<Ord("g", FALSE)>>, 2, -1), Rows(P3, FALSE, <<Ord("g", TRUE)>>, 1, 1),
+  Rows(P3, FALSE, <<Ord("f", FALSE), Ord("g", FALSE)>>, -1, -1), Rows(P3, FALSE, <<Ord("f", TRUE), Ord("g", TRUE)>>, -1, -1),
+  Rows(P3, FALSE, <<Ord("n", FALSE), Ord("g", FALSE)>>, -1, -1), Rows(P3, FALSE, <<OrdN("g", FALSE, "last")>>, -1, -1),
+  Rows(P3, FALSE, <<OrdN("f", TRUE, "first")>>, -1, -1),
+  Rows(PS, FALSE, <<Ord("u", FALSE)>>, -1, -1), Rows(PS, FALSE, <<Ord("s", FALSE), Ord("u", FALSE)>>, -1, -1),
+  Rows(PS, FALSE, <<Ord("g", FALSE)>>, -1, -1),
+  Rows(<<"g">>, TRUE, <<>>, -1, -1), Rows(<<"g">>, TRUE, <<Ord("g", FALSE)>>, -1, -1), Rows(<<"g">>, TRUE, <<Ord("g", TRUE)>>, 2, -1),
+  Rows(<<"s", "u">>, TRUE, <<>>, -1, -1), Rows(<<"g", "n">>, TRUE, <<>>, -1, -1), Rows(<<"u", "s">>, TRUE, <<Ord("u", FALSE)>>, -1, -1),
+  Group(<<"g">>, <<Agg("COUNT", "*"), Agg("MIN", "id"), Agg("MAX", "id"), Agg("SUM", "id")>>, 0, FALSE),
+  Group(<<"g">>, <<Agg("COUNT", "*"), Agg("SUM", "id")>>, 1, FALSE), Group(<<"g">>, <<Agg("COUNT", "*")>>, 2, FALSE),
+  Group(<<"g", "n">>, <<Agg("COUNT", "*"), Agg("SUM", "id"), Agg("MIN", "id")>>, 0, FALSE),
+  Group(<<"n", "g">>, <<Agg("COUNT", "*"), Agg("MAX", "id")>>, 1, FALSE),
+  Group(<<"s", "u">>, <<Agg("COUNT", "*"), Agg("MAX", "id"), Agg("MIN", "g"), Agg("SUM", "g")>>, 0, FALSE),
+  Group(<<"u", "s">>, <<Agg("COUNT", "*"), Agg("COUNT", "n")>>, 0, FALSE),
+  Group(<<"s", "u">>, <<Agg("COUNT", "*")>>, 0, TRUE),
+  Group(<<"s">>, <<Agg("COUNT", "*"), Agg("MAX", "u")>>, 0, FALSE), Group(<<"u">>, <<Agg("COUNT", "*"), Agg("MIN", "s")>>, 1, FALSE),
+  Group(<<>>, <<Agg("COUNT", "*")>>, 0, FALSE), Group(<<>>, <<Agg("MIN", "f"), Agg("MAX", "f"), Agg("COUNT", "f"), Agg("SUM", "g")>>, 0, FALSE) >>
 
 NP == Len(Preds)
 NS == Len(Shapes)
 NSingle == (NP + 1) * NS
 NJoin == 2 * Len(JoinOns) * Len(JoinWheres) * Len(JoinShapes)
-NQ == NSingle + NJoin
+NP3 == Len(Preds3)
+NS3 == Len(Shapes3)
+NT3 == (NP3 + 1) * NS3
+NQ == NSingle + NJoin + NT3
 \* query number q (1..NQ) -> AST
 QueryAt(q) ==
   IF q <= NSingle
   THEN LET pi == (q - 1) \div NS      \* 0 = no WHERE
            si == ((q - 1) % NS) + 1
-       IN [join |-> <<>>, where |-> IF pi = 0 THEN <<>> ELSE <<Preds[pi]>>, shape |-> Shapes[si], pi |-> pi, si |-> si]
+       IN [tbl |-> "t1", join |-> <<>>, where |-> IF pi = 0 THEN <<>> ELSE <<Preds[pi]>>, shape |-> Shapes[si], pi |-> pi, si |-> si]
+  ELSE IF q > NSingle + NJoin
+  THEN LET z == q - NSingle - NJoin - 1
+           pi == z \div NS3
+           si == (z % NS3) + 1
+       IN [tbl |-> "t3", join |-> <<>>, where |-> IF pi = 0 THEN <<>> ELSE <<Preds3[pi]>>, shape |-> Shapes3[si], pi |-> pi, si |-> si]
   ELSE LET z == q - NSingle - 1
            si == (z % Len(JoinShapes)) + 1
            wi == ((z \div Len(JoinShapes)) % Len(JoinWheres)) + 1
            oi == ((z \div (Len(JoinShapes) * Len(JoinWheres))) % Len(JoinOns)) + 1
            ji == (z \div (Len(JoinShapes) * Len(JoinWheres) * Len(JoinOns))) + 1
-       IN [join |-> <<[type |-> IF ji = 1 THEN "inner" ELSE "left", on |-> JoinOns[oi]]>>, where |-> JoinWheres[wi],
+       IN [tbl |-> "t1", join |-> <<[type |-> IF ji = 1 THEN "inner" ELSE "left", on |-> JoinOns[oi]]>>, where |-> JoinWheres[wi],
            shape |-> JoinShapes[si], pi |-> 0 - wi, si |-> 0 - si]
 
 -----------------------------------------------------------------------------
 (* Denotation.                                                             *)
 RECURSIVE LexLess(_, _, _)
-\* strict order of two tuples under sort keys <<position, desc>>..., then (to make SortSeq deterministic) by the whole tuple
+\* strict order of two tuples under sort keys <<position, desc, nulls>>..., then (to make SortSeq deterministic) by the whole tuple
 TupLess(u, v) == \E i \in 1..Len(u) : u[i] < v[i] /\ \A j \in 1..(i - 1) : u[j] = v[j]
 LexLess(keys, u, v) ==
   IF Len(keys) = 0 THEN FALSE
-  ELSE LET p == keys[1][1] d == keys[1][2]
-       IN IF u[p] # v[p] THEN (IF d THEN u[p] > v[p] ELSE u[p] < v[p]) ELSE LexLess(Tail(keys), u, v)
+  ELSE LET p == keys[1][1] d == keys[1][2] nl == keys[1][3]
+       IN IF u[p] = v[p] THEN LexLess(Tail(keys), u, v)
+          ELSE IF nl # "" /\ u[p] = NULL THEN nl = "first"
+          ELSE IF nl # "" /\ v[p] = NULL THEN nl = "last"
+          ELSE IF d THEN u[p] > v[p] ELSE u[p] < v[p]
 KeyEq(keys, u, v) == \A i \in 1..Len(keys) : u[keys[i][1]] = v[keys[i][1]]
 SortBy(keys, s) == SortSeq(s, LAMBDA u, v : LexLess(keys, u, v) \/ (KeyEq(keys, u, v) /\ TupLess(u, v)))
 
@@ -319,7 +410,7 @@ Proj(r, proj) == [i \in 1..Len(proj) |-> r[Col(proj[i])]]
 Source(q, T1, T2) ==
   IF Len(q.join) = 0 THEN {Pad1(r) : r \in T1}
   ELSE LET on == q.join[1].on
-           match(l, t) == \A i \in 1..Len(on) : l[Col(on[i][1])] = t[Col(on[i][2]) - 4]
+           match(l, t) == \A i \in 1..Len(on) : CmpOp(on[i][2], l[Col(on[i][1])], t[Col(on[i][3]) - 4])
            pairs == {lt \in {<<l, t>> : l \in T1, t \in T2} : match(lt[1], lt[2])}
        IN {lt[1] \o lt[2] : lt \in pairs}
           \cup (IF q.join[1].type = "left" THEN {Pad1(l) : l \in {m \in T1 : ~\E t \in T2 : match(m, t)}} ELSE {})
@@ -338,18 +429,21 @@ Den(q, T1, T2) ==
   LET sel == {r \in Source(q, T1, T2) : Holds(q.where, r, T2)}
       sh == q.shape
   IN IF sh.kind = "rows"
-     THEN LET keys == [i \in 1..Len(sh.order) |-> <<PosIn(sh.proj, sh.order[i][1]), sh.order[i][2]>>]
+     THEN LET keys == [i \in 1..Len(sh.order) |-> <<PosIn(sh.proj, sh.order[i][1]), sh.order[i][2], sh.order[i][3]>>]
               all == LET s == SetToSeq(sel) IN [i \in 1..Len(s) |-> Proj(s[i], sh.proj)]
               bag == IF sh.distinct THEN SetToSeq(Range(all)) ELSE all
           IN SortBy(keys, bag)
-     ELSE IF sh.by = ""
+     ELSE IF Len(sh.by) = 0
           THEN IF sel = {} THEN << [i \in 1..Len(sh.aggs) |-> IF sh.aggs[i][1] = "COUNT" THEN 0 ELSE ANY] >>
                ELSE << [i \in 1..Len(sh.aggs) |-> AggVal(sh.aggs[i][1], sh.aggs[i][2], sel)] >>
-          ELSE LET gvals == {r[Col(sh.by)] : r \in sel}
-                   grp(g) == {r \in sel : r[Col(sh.by)] = g}
+          ELSE LET \* one row per distinct tuple of the GROUP BY columns (NULL is a value of its own in every column)
+                   gkey(r) == [i \in 1..Len(sh.by) |-> r[Col(sh.by[i])]]
+                   gvals == {gkey(r) : r \in sel}
+                   grp(g) == {r \in sel : gkey(r) = g}
                    keep == IF sh.having THEN {g \in gvals : Cardinality(grp(g)) > 1} ELSE gvals
-                   rowsOf == {<<g>> \o [i \in 1..Len(sh.aggs) |-> AggVal(sh.aggs[i][1], sh.aggs[i][2], grp(g))] : g \in keep}
-               IN SortBy(IF sh.order = 0 THEN <<>> ELSE <<<<1, sh.order = 2>>>>, SetToSeq(rowsOf))
+                   rowsOf == {g \o [i \in 1..Len(sh.aggs) |-> AggVal(sh.aggs[i][1], sh.aggs[i][2], grp(g))] : g \in keep}
+               \* ORDER BY (when present) is on the first GROUP BY column
+               IN SortBy(IF sh.order = 0 THEN <<>> ELSE <<<<1, sh.order = 2, "">>>>, SetToSeq(rowsOf))
 
 Touchy(q, T1, T2) == Len(q.where) > 0 /\ \E r \in Source(q, T1, T2) : Refuses(q.where[1], r, T2)
 
@@ -362,7 +456,8 @@ HistOutDef ==
         stmts == HistStmts(k[2], k[1])
         split == SplitOf(k[2], k[1], k[3])
         t2 == IF (j + Seed) % 6 = 0 THEN 2 ELSE IF (j + Seed) % 6 = 3 THEN 3 ELSE 1
-    IN [id |-> j, mut |-> k[1], base |-> k[2], splitKind |-> k[3], stmts |-> stmts, split |-> split, t2 |-> t2,
+        t3 == IF (j + Seed) % 5 = 4 THEN 3 ELSE IF (j + Seed) % 5 >= 2 THEN 2 ELSE 1
+    IN [t3 |-> t3, t3rows |-> SetToSortSeq(T3s[t3], TupLess), id |-> j, mut |-> k[1], base |-> k[2], splitKind |-> k[3], stmts |-> stmts, split |-> split, t2 |-> t2,
         t2rows |-> SetToSortSeq(T2s[t2], TupLess),
         final |-> SetToSortSeq(StateAt(stmts, Len(stmts)), TupLess),
         committed |-> SetToSortSeq(StateAt(stmts, split), TupLess),
@@ -373,17 +468,21 @@ HistOutDef ==
 Hist == TLCGet(1)
 T1Of(j) == Range(Hist[j].final)
 T2Of(j) == T2s[Hist[j].t2]
+T3Of(j) == T3s[Hist[j].t3]
+\* the table a query reads: t3 queries read the t3 variant of the history
+TabOf(ast, j) == IF ast.tbl = "t3" THEN T3Of(j) ELSE T1Of(j)
 
-Selected(j, q) == (q + Seed * 5 + j * 3) % QMod = 0
+ModOf(q) == IF q <= NSingle THEN QMod ELSE IF q <= NSingle + NJoin THEN JMod ELSE Q3Mod
+Selected(j, q) == (q + Seed * 5 + j * 3) % ModOf(q) = 0
 CasesDef ==
   LET pairs == SetToSortSeq({<<j, q>> \in (1..NH) \X (1..NQ) : Selected(j, q)}, TupLess)
   IN [i \in 1..Len(pairs) |->
        LET j == pairs[i][1] q == pairs[i][2] ast == QueryAt(q)
-       IN [h |-> j, q |-> q, rows |-> Den(ast, T1Of(j), T2Of(j)), touchy |-> Touchy(ast, T1Of(j), T2Of(j))]]
+       IN [h |-> j, q |-> q, rows |-> Den(ast, TabOf(ast, j), T2Of(j)), touchy |-> Touchy(ast, TabOf(ast, j), T2Of(j))]]
 Cases == TLCGet(2)
 
 \* partition identity: for the plain full-row query Q over t1 and every predicate P
-PartQ(w) == [join |-> <<>>, where |-> w, shape |-> Shapes[1], pi |-> 0, si |-> 1]
+PartQ(w) == [tbl |-> "t1", join |-> <<>>, where |-> w, shape |-> Shapes[1], pi |-> 0, si |-> 1]
 PartSelected(j, p) == (p + Seed * 3 + j * 2) % PMod = 0
 PartsDef ==
   LET pairs == SetToSortSeq({<<j, p>> \in (1..NH) \X (1..NP) : PartSelected(j, p)}, TupLess)
@@ -404,15 +503,16 @@ SortedOK == \A i \in 1..Len(Cases) :
   LET sh == QueryAt(Cases[i].q).shape rows == Cases[i].rows
   IN sh.kind = "rows" =>
        /\ \A n \in 1..(Len(rows) - 1) :
-            LET keys == [z \in 1..Len(sh.order) |-> <<PosIn(sh.proj, sh.order[z][1]), sh.order[z][2]>>]
+            LET keys == [z \in 1..Len(sh.order) |-> <<PosIn(sh.proj, sh.order[z][1]), sh.order[z][2], sh.order[z][3]>>]
             IN ~LexLess(keys, rows[n + 1], rows[n])
        /\ sh.distinct => Cardinality(Range(rows)) = Len(rows)
-\* NULL sorts first ascending (the dialect the harness checks the engine against)
+\* NULL sorts first ascending and last descending (the dialect the harness checks the engine against) unless NULLS FIRST / LAST says otherwise
 NullFirst == \A i \in 1..Len(Cases) :
   LET sh == QueryAt(Cases[i].q).shape rows == Cases[i].rows
   IN (sh.kind = "rows" /\ Len(sh.order) > 0 /\ Len(rows) > 1) =>
        LET p == PosIn(sh.proj, sh.order[1][1])
-       IN (\E n \in 1..Len(rows) : rows[n][p] = NULL) => (IF sh.order[1][2] THEN rows[Len(rows)][p] = NULL ELSE rows[1][p] = NULL)
+           first == sh.order[1][3] = "first" \/ (sh.order[1][3] = "" /\ ~sh.order[1][2])
+       IN (\E n \in 1..Len(rows) : rows[n][p] = NULL) => (IF first THEN rows[1][p] = NULL ELSE rows[Len(rows)][p] = NULL)
 
 Count(S) == Cardinality(S)
 StmtKinds == {"ins", "upsert", "insdn", "upd", "del"}
@@ -424,6 +524,12 @@ Facts ==
   /\ PrintT(<<"count", "queries", NQ>>)
   /\ PrintT(<<"count", "single-table queries", NSingle>>)
   /\ PrintT(<<"count", "join queries", NJoin>>)
+  /\ PrintT(<<"count", "t3 queries", NT3>>)
+  /\ PrintT(<<"count", "join cases", Count({i \in 1..Len(Cases) : Len(QueryAt(Cases[i].q).join) > 0})>>)
+  /\ PrintT(<<"count", "t3 cases", Count({i \in 1..Len(Cases) : QueryAt(Cases[i].q).tbl = "t3"})>>)
+  /\ PrintT(<<"count", "multi-column GROUP BY cases telling groups apart by a later column",
+              Count({i \in 1..Len(Cases) : LET sh == QueryAt(Cases[i].q).shape IN sh.kind = "group" /\ Len(sh.by) > 1
+                       /\ Cardinality({Cases[i].rows[n][1] : n \in 1..Len(Cases[i].rows)}) < Len(Cases[i].rows)})>>)
   /\ PrintT(<<"count", "predicates", NP>>)
   /\ PrintT(<<"count", "shapes", NS>>)
   /\ PrintT(<<"count", "cases", Len(Cases)>>)
@@ -445,7 +551,7 @@ ASSUME /\ TLCSet(1, HistOutDef)
        /\ Facts
        /\ JsonSerialize(OutFile,
             [seed |-> Seed, null |-> NULL, any |-> ANY, schemas |-> Schemas, histories |-> Hist,
-             preds |-> Preds, queries |-> [q \in 1..NQ |-> QueryAt(q)], nsingle |-> NSingle,
+             preds |-> Preds, queries |-> [q \in 1..NQ |-> QueryAt(q)], nsingle |-> NSingle, njoin |-> NJoin,
              cases |-> Cases, parts |-> Parts])
 
 VARIABLE x
